@@ -249,14 +249,37 @@ Proof.
   destruct (is_dot c); reflexivity.
 Qed.
 
+Lemma backoff_unfold {A} (k : list ascii -> option A) rd rest :
+  backoff k rd rest = match k rest with
+                      | Some r => Some r
+                      | None => match rd with [] => None | c :: rd' => backoff k rd' (c :: rest) end
+                      end.
+Proof. destruct rd; reflexivity. Qed.
+
+Lemma rev_nil_inv {A} (l : list A) : rev l = [] -> l = [].
+Proof. intros E. apply (f_equal (@rev _)) in E. rewrite rev_involutive in E. exact E. Qed.
+
 Lemma kA_scan s1 : kA s1 = match scan_mant s1 with Some s3 => Some (scan_exp s3) | None => None end.
 Proof.
   unfold kA. cbn [rmatch]. rewrite star_k_backoff. unfold scan_mant.
   pose proof (take_while_stop is_digit s1) as Stop.
   pose proof (take_while_all is_digit s1) as All.
   destruct (take_while is_digit s1) as [ip s2]. cbn [fst snd] in *.
-  (* what kB does right after the whole digits run *)
+  (* right after the whole digits run, [0-9]+ cannot start *)
   assert (Hfail : kC s2 = None) by (apply kC_nondigit; exact Stop).
+  (* what \.?[0-9]+... does right after the whole digits run *)
+  assert (F1 : kB s2 = match s2 with
+                       | c :: r => if is_dot c then
+                                     match fst (take_while is_digit r) with
+                                     | [] => None
+                                     | _ :: _ => Some (scan_exp (snd (take_while is_digit r)))
+                                     end
+                                   else None
+                       | [] => None
+                       end).
+  { rewrite kB_scan, Hfail. destruct s2 as [|c r]; [reflexivity|].
+    destruct (is_dot c); [|reflexivity]. rewrite kC_scan.
+    destruct (fst (take_while is_digit r)); reflexivity. }
   (* giving back one digit always works when there is one *)
   assert (Hback : forall c rd, rev ip = c :: rd ->
              backoff kB rd (c :: s2) = Some (scan_exp s2)).
@@ -264,31 +287,21 @@ Proof.
     assert (Dc : is_digit c = true).
     { assert (In c ip) by (apply in_rev; rewrite E; left; reflexivity).
       rewrite forallb_forall in All. apply All, H. }
-    destruct rd as [|c' rd']; cbn [backoff]; rewrite kB_scan, (digit_not_dot _ Dc), kC_scan;
-      cbn [take_while]; rewrite Dc;
-      (destruct s2 as [|x s2']; [reflexivity|]); cbn [take_while]; rewrite Stop; reflexivity. }
-  destruct s2 as [|c r].
-  - (* end of text after the digits *)
-    destruct (rev ip) as [|d rd] eqn:E.
-    + assert (ip = []) as -> by (apply (f_equal (@rev _)) in E; rewrite rev_involutive in E; exact E).
-      cbn. reflexivity.
-    + cbn [backoff]. rewrite kB_scan, Hfail. rewrite (Hback d rd eq_refl).
-      destruct ip; [discriminate|reflexivity].
-  - destruct (is_dot c) eqn:Ed.
-    + rewrite kC_scan.
-      destruct (fst (take_while is_digit r)) as [|f fp] eqn:Ef.
-      * (* "digits." not followed by a digit: the dot is not part of the number *)
-        destruct (rev ip) as [|d rd] eqn:E.
-        -- assert (ip = []) as -> by (apply (f_equal (@rev _)) in E; rewrite rev_involutive in E; exact E).
-           cbn [backoff]. rewrite kB_scan, Ed, kC_scan, Ef, Hfail. reflexivity.
-        -- cbn [backoff]. rewrite kB_scan, Ed, kC_scan, Ef, Hfail. rewrite (Hback d rd eq_refl).
-           destruct ip; [discriminate|reflexivity].
-      * destruct (rev ip); cbn [backoff]; rewrite kB_scan, Ed, kC_scan, Ef; reflexivity.
-    + destruct (rev ip) as [|d rd] eqn:E.
-      * assert (ip = []) as -> by (apply (f_equal (@rev _)) in E; rewrite rev_involutive in E; exact E).
-        cbn [backoff]. rewrite kB_scan, Ed, Hfail. reflexivity.
-      * cbn [backoff]. rewrite kB_scan, Ed, Hfail. rewrite (Hback d rd eq_refl).
-        destruct ip; [discriminate|reflexivity].
+    rewrite backoff_unfold, kB_scan, (digit_not_dot _ Dc), kC_scan.
+    cbn [take_while]. rewrite Dc.
+    assert (T : take_while is_digit s2 = ([], s2)).
+    { destruct s2 as [|x s2']; [reflexivity|]. cbn. rewrite Stop. reflexivity. }
+    rewrite T. reflexivity. }
+  rewrite backoff_unfold, F1.
+  assert (Hnone : match rev ip with [] => None | c :: rd' => backoff kB rd' (c :: s2) end
+                  = match match ip with [] => None | _ :: _ => Some s2 end with
+                    | Some s3 => Some (scan_exp s3) | None => None end).
+  { destruct (rev ip) as [|d rd] eqn:E.
+    - rewrite (rev_nil_inv _ E). reflexivity.
+    - rewrite (Hback d rd eq_refl). destruct ip; [discriminate|reflexivity]. }
+  destruct s2 as [|c r]; [exact Hnone|].
+  destruct (is_dot c); [|exact Hnone].
+  destruct (fst (take_while is_digit r)); [exact Hnone|reflexivity].
 Qed.
 
 (* FLOAT_RE.match (Python's backtracking semantics) = the scanner *)
@@ -392,11 +405,14 @@ Qed.
 Lemma findall_match pre rest :
   pre <> [] -> scan_float (pre ++ rest) = Some rest -> findall (pre ++ rest) = pre :: findall rest.
 Proof.
-  intros NE E. unfold findall.
-  destruct (pre ++ rest) as [|c s'] eqn:Es; [destruct pre; [congruence|discriminate]|].
-  cbn [findall_fuel length]. rewrite match_float_scan, E. rewrite <- Es.
-  rewrite firstn_prefix. f_equal.
-  apply findall_fuel_enough.
-  assert (length (pre ++ rest) = S (length s')) by (rewrite Es; reflexivity).
-  rewrite app_length in H. destruct pre; [congruence|cbn in H; lia].
+  intros NE E. destruct pre as [|c pre']; [congruence|].
+  unfold findall at 1.
+  change (findall_fuel (length ((c :: pre') ++ rest)) ((c :: pre') ++ rest))
+    with (match match_float ((c :: pre') ++ rest) with
+          | Some r => firstn (length ((c :: pre') ++ rest) - length r) ((c :: pre') ++ rest)
+                        :: findall_fuel (length (pre' ++ rest)) r
+          | None => findall_fuel (length (pre' ++ rest)) (pre' ++ rest)
+          end).
+  rewrite match_float_scan, E, firstn_prefix. f_equal.
+  apply findall_fuel_enough. rewrite app_length. lia.
 Qed.
